@@ -266,8 +266,42 @@ impl Stream for Invalid
 			// nothing can be written through it either
 			(format!("const P: &{t} = &K;\n\nfn bad()\n{{\n\tP = 2;\n}}"), &[360, 530]),
 			(format!("const P: &{t} = &K;\n\nfn bad()\n{{\n\tsink_ptr(&P);\n}}"), &[360, 530]),
+			// the address of something immutable handed out as the return value
+			(format!("fn bad(s: Outer) -> &{t}\n{{\n\treturn: &s.n\n}}"), &[530]),
+			(format!("fn bad() -> &{t}\n{{\n\treturn: &K\n}}"), &[530]),
+			(format!("fn bad(v: {t}) -> &{t}\n{{\n\treturn: &v\n}}"), &[530]),
+			(format!("fn bad(a: []{t}) -> &{t}\n{{\n\treturn: &a[0]\n}}"), &[530, 500, 512]),
 		];
 		let (bad, codes) = c.pick(&kinds).clone();
+		// the same statements in other control-flow positions: every analysis
+		// pass has to look into every branch of every `if`
+		let bad = {
+			let context = c.draw(7);
+			match (context, bad.find("\n{\n"), bad.rfind("\n}"))
+			{
+				(1..=6, Some(a), Some(b)) if b > a + 3 && !bad.contains("return:") =>
+				{
+					let head = &bad[..a + 3];
+					let body: String = bad[a + 3..b].lines().map(|l| format!("\t{}\n", l)).collect();
+					let wrapped = match context
+					{
+						1 => format!("\t{{\n{}\t}}\n", body),
+						2 => format!("\tif 0i32 == 0\n\t{{\n{}\t}}\n", body),
+						3 => format!("\tif 0i32 == 1\n\t{{\n\t}}\n\telse\n\t{{\n{}\t}}\n", body),
+						4 => format!("\tif 0i32 == 1\n\t{{\n\t}}\n\telse if 0i32 == 0\n\t{{\n{}\t}}\n", body),
+						5 => format!("\tif 0i32 == 1\n\t{{\n\t}}\n\telse if 0i32 == 2\n\t{{\n\t}}\n\telse if 0i32 == 0\n\t{{\n{}\t}}\n\telse\n\t{{\n\t}}\n", body),
+						_ => format!("\t{{\n\t\tif 0i32 == 1\n\t\t{{\n\t\t}}\n\t\telse\n\t\t{{\n\t{}\t\t}}\n\t}}\n", body.replace("\n\t", "\n\t\t")),
+					};
+					out.class(format!("context:{}", ["plain", "block", "then", "else", "else-if", "second else-if", "nested else"][context]));
+					format!("{}{}}}", head, wrapped)
+				}
+				_ =>
+				{
+					out.class("context:plain");
+					bad
+				}
+			}
+		};
 		// the same shape must be fine when done through a pointer / with `&`
 		let good = format!(
 			"fn good(p: &{t}, a: &[]{t}, s: &Outer)\n{{\n\tp = 1;\n\ta[0] = 1;\n\ts.n = 1;\n\ts.inner.v = 1;\n\ts.inner.w.lo = 1;\n\tsink_ptr(&p);\n\tsink_slice(&a);\n\tsink_struct(&s);\n}}\n\nfn main() -> i32\n{{\n\tvar x: {t} = 1;\n\tvar arr: [2]{t} = [1, 2];\n\tvar s = {mk_outer};\n\tgood(&x, &arr, &s);\n\treturn: 0\n}}"
@@ -367,7 +401,7 @@ impl Check for C08
 	}
 	fn rule(&self) -> String
 	{
-		"(a) generated call-heavy programs (functions with value, word-by-value, array-view, struct-view, slice-pointer, pointer, pointer-to-struct and pointer-to-pointer parameters; callees read, write through reference chains and forward parameters to other callees; the final state of every visible primitive is printed), compiled, run and compared with the reference interpreter, in which views and by-value parameters are immutable and only `&` arguments alias caller storage; (b) 38 illegal shapes (writes through value / view / word / constant in 1-3 reference steps, `&` of an immutable parameter or constant, whole-array / view / struct copies by initialisation and assignment, pointer parameters given a bare variable / member, `&` of an array member of a structure view / of a constant array coerced to a slice pointer, whole arrays / structures copied into structure and array literals next to call members, writes through the view parameter of an `extern fn` with a body, writes through a constant holding the address of a constant) over 11 integer types, each next to a valid function doing the same through pointers; (c) a fixed control program per integer type with a hand-computed expected output. Oracle: (a) stdout and exit status equal the interpreter's, so caller variables change exactly where the call site wrote `&`; (b) rejected with E530 / E531 / E532 / E533 / E513; (c) exact output. Non-trivial (a): a call with an `&` argument and a callee that writes through or forwards a parameter; distinct by source.".into()
+		"(a) generated call-heavy programs (functions with value, word-by-value, array-view, struct-view, slice-pointer, pointer, pointer-to-struct and pointer-to-pointer parameters; callees read, write through reference chains and forward parameters to other callees; the final state of every visible primitive is printed), compiled, run and compared with the reference interpreter, in which views and by-value parameters are immutable and only `&` arguments alias caller storage; (b) 42 illegal shapes, each in one of seven control-flow positions (function body, nested block, then / else / else-if / later else-if arm, nested else), (writes through value / view / word / constant in 1-3 reference steps, `&` of an immutable parameter or constant, whole-array / view / struct copies by initialisation and assignment, pointer parameters given a bare variable / member, `&` of an array member of a structure view / of a constant array coerced to a slice pointer, whole arrays / structures copied into structure and array literals next to call members, writes through the view parameter of an `extern fn` with a body, writes through a constant holding the address of a constant, the address of a view member / constant / value parameter as return value) over 11 integer types, each next to a valid function doing the same through pointers; (c) a fixed control program per integer type with a hand-computed expected output. Oracle: (a) stdout and exit status equal the interpreter's, so caller variables change exactly where the call site wrote `&`; (b) rejected with E530 / E531 / E532 / E533 / E513; (c) exact output. Non-trivial (a): a call with an `&` argument and a callee that writes through or forwards a parameter; distinct by source.".into()
 	}
 	fn assumptions(&self) -> Vec<String>
 	{
